@@ -33,10 +33,11 @@ import (
 
 // Client is one client TCP connection of a generation
 type Client struct {
-	N          int `json:"n"`          // records to send
-	PauseEvery int `json:"pauseEvery"` // pause after every so many records (0 = never)
-	PauseMs    int `json:"pauseMs"`
-	DelayMs    int `json:"delayMs"` // delay before connecting
+	N          int  `json:"n"`          // records to send
+	PauseEvery int  `json:"pauseEvery"` // pause after every so many records (0 = never)
+	PauseMs    int  `json:"pauseMs"`
+	DelayMs    int  `json:"delayMs"`  // delay before connecting
+	KeepOpen   bool `json:"keepOpen"` // the client leaves its connection open: the agent's stop has to close it
 }
 
 // Gen is one life of the agent
@@ -48,6 +49,9 @@ type Gen struct {
 	ReloadAtMs int      `json:"reloadAtMs"`  // when, after the clients started
 	Drain      bool     `json:"drain"`       // wait until the upstream has acknowledged everything before stopping
 	TwoKeys    bool     `json:"twoKeys"`     // orchestration keys [app, source] instead of [app]
+	// with clients that keep their connection open: the input's periodic flush is made slow (InputFlushMs) and the stop
+	// comes a fixed time after the last write (records read and parsed, not yet handed on), instead of waiting for the counters
+	InputFlushMs int `json:"inputFlushMs"`
 }
 
 // Script is a whole history
@@ -343,8 +347,14 @@ func RunScript(sc Script, work string) *vtrace.Tracer {
 			launch = ld.LaunchInputs
 			gather = func() map[string]float64 { return vmetrics.Gather(ld.GetMetricGatherer()) }
 		}
+		defs.InputFlushInterval = 30 * time.Millisecond
+		if g.InputFlushMs > 0 {
+			defs.InputFlushInterval = time.Duration(g.InputFlushMs) * time.Millisecond
+		}
 		addrs, shutdownInputs := launch(orc)
 		var wg sync.WaitGroup
+		var openMu sync.Mutex
+		var openConns []net.Conn
 		lines := 0
 		for ci, cl := range g.Clients {
 			lines += cl.N
@@ -369,6 +379,15 @@ func RunScript(sc Script, work string) *vtrace.Tracer {
 					}
 				}
 				w.Flush()
+				if cl.KeepOpen {
+					// 80 ms on the loopback: the agent has read and parsed what was written (reproduction decides otherwise)
+					time.Sleep(80 * time.Millisecond)
+					tr.Emit("Sent", "gen", genNo, "c", c, "n", cl.N)
+					openMu.Lock()
+					openConns = append(openConns, conn)
+					openMu.Unlock()
+					return
+				}
 				tr.Emit("Sent", "gen", genNo, "c", c, "n", cl.N)
 				conn.Close()
 			}(ci+1, cl)
@@ -389,6 +408,9 @@ func RunScript(sc Script, work string) *vtrace.Tracer {
 		wg.Wait()
 		// everything the clients wrote must have been read before the stop ("read" is what the property speaks about)
 		deadline := time.Now().Add(3 * time.Second)
+		if g.InputFlushMs > 0 {
+			deadline = time.Now() // open connections, slow flush: the stop comes while records are parsed but not handed on
+		}
 		for time.Now().Before(deadline) {
 			m := gather()
 			if sumMetric(m, "input_passed_records_total")+sumMetric(m, "input_dropped_records_total") >= lines {
@@ -431,6 +453,9 @@ func RunScript(sc Script, work string) *vtrace.Tracer {
 		select {
 		case <-done:
 			tr.Emit("Stopped", "gen", genNo, "ms", time.Since(t0).Milliseconds())
+			for _, c := range openConns {
+				c.Close()
+			}
 		case <-time.After(20 * time.Second):
 			tr.Emit("HUNG", "gen", genNo)
 			return tr
